@@ -189,6 +189,9 @@ impl QVisitor for PathV<'_> {
                     enc_pair(e, &i, &mut body);
                     n += 1;
                 }
+                if matches!(self.path, 0 | 1 | 4 | 5) && !o.is_empty() && o[0] != n {
+                    self.flags.push(format!("C08: len() reported {} but iteration yielded {n} (path {})", o[0], self.path));
+                }
                 o.push(n);
                 o.extend(body);
             }
@@ -201,6 +204,9 @@ impl QVisitor for PathV<'_> {
                     enc_pair(e, &i, &mut body);
                     n += 1;
                 }
+                if matches!(self.path, 0 | 1 | 4 | 5) && !o.is_empty() && o[0] != n {
+                    self.flags.push(format!("C08: len() reported {} but iteration yielded {n} (path {})", o[0], self.path));
+                }
                 o.push(n);
                 o.extend(body);
             }
@@ -212,6 +218,9 @@ impl QVisitor for PathV<'_> {
                 for (e, i) in v.iter_mut() {
                     enc_pair(e, &i, &mut body);
                     n += 1;
+                }
+                if matches!(self.path, 0 | 1 | 4 | 5) && !o.is_empty() && o[0] != n {
+                    self.flags.push(format!("C08: len() reported {} but iteration yielded {n} (path {})", o[0], self.path));
                 }
                 o.push(n);
                 o.extend(body);
@@ -268,6 +277,9 @@ impl QVisitor for PathV<'_> {
                 }
                 o.push(batches.len() as u64);
                 for (n, body) in batches {
+                    if matches!(self.path, 0 | 1 | 4 | 5) && !o.is_empty() && o[0] != n {
+                        self.flags.push(format!("C08: len() reported {} but iteration yielded {n} (path {})", o[0], self.path));
+                    }
                     o.push(n);
                     o.extend(body);
                 }
@@ -289,6 +301,9 @@ impl QVisitor for PathV<'_> {
                         enc_pair(e, &i, &mut body);
                         n += 1;
                     }
+                    if matches!(self.path, 0 | 1 | 4 | 5) && !o.is_empty() && o[0] != n {
+                        self.flags.push(format!("C08: len() reported {} but iteration yielded {n} (path {})", o[0], self.path));
+                    }
                     o.push(n);
                     o.extend(body);
                 } else if self.path == 5 {
@@ -299,6 +314,9 @@ impl QVisitor for PathV<'_> {
                     for (e, i) in it {
                         enc_pair(e, &i, &mut body);
                         n += 1;
+                    }
+                    if matches!(self.path, 0 | 1 | 4 | 5) && !o.is_empty() && o[0] != n {
+                        self.flags.push(format!("C08: len() reported {} but iteration yielded {n} (path {})", o[0], self.path));
                     }
                     o.push(n);
                     o.extend(body);
@@ -352,6 +370,14 @@ impl QVisitor for PathV<'_> {
                                 }
                             };
                         }
+                    }
+                    let sat = match w.satisfies::<Q>(*h) {
+                        Err(_) => 0,
+                        Ok(false) => 1,
+                        Ok(true) => 2,
+                    };
+                    if sat != a[0] {
+                        self.flags.push(format!("C08: satisfies({:?}) = {sat} but query_one_mut = {} (0 no entity, 1 unsatisfied, 2 satisfied)", h, a[0]));
                     }
                     if a != b || a != c {
                         self.flags.push(format!("C08: query_one_mut / query_one / EntityRef::query disagree on {:?}: {:?} {:?} {:?}", h, a, b, c));
